@@ -933,6 +933,9 @@ func (ex *Exec) checkAnchor(fn *ssa.Function, b *ssa.BasicBlock, lc *LoopContrac
 			if _, isDbg := in.(*ssa.DebugRef); isDbg {
 				continue
 			}
+			if _, isPhi := in.(*ssa.Phi); isPhi {
+				continue // phis carry the position of the variable's declaration
+			}
 			if in.Pos().IsValid() {
 				poss = append(poss, in.Pos())
 			}
@@ -957,7 +960,30 @@ func (ex *Exec) checkAnchor(fn *ssa.Function, b *ssa.BasicBlock, lc *LoopContrac
 		return true
 	})
 	if best == nil {
-		panic(unsupported(fmt.Sprintf("loop contract %s#%d (%s:%d): no loop statement found for the SSA loop", lc.Func, lc.Index, lc.File, lc.Line)))
+		// fall back: the innermost loop statement containing most instruction positions
+		bestCount := 0
+		ast.Inspect(syn, func(n ast.Node) bool {
+			switch n.(type) {
+			case *ast.ForStmt, *ast.RangeStmt:
+				cnt := 0
+				for _, p := range poss {
+					if p >= n.Pos() && p <= n.End() {
+						cnt++
+					}
+				}
+				if cnt*10 >= len(poss)*9 && (best == nil || cnt > bestCount || (cnt == bestCount && (n.End()-n.Pos()) < (best.End()-best.Pos()))) {
+					best, bestCount = n, cnt
+				}
+			}
+			return true
+		})
+	}
+	if best == nil {
+		var ls []string
+		for _, p := range poss {
+			ls = append(ls, fmt.Sprint(ex.eng.fset.Position(p).Line))
+		}
+		panic(unsupported(fmt.Sprintf("loop contract %s#%d (%s:%d): no loop statement found for the SSA loop (instruction lines %v)", lc.Func, lc.Index, lc.File, lc.Line, ls)))
 	}
 	p := ex.eng.fset.Position(best.Pos())
 	line := ex.eng.sourceLine(p.Filename, p.Line)
